@@ -16,12 +16,15 @@ flags (trigger predicates computed from the input only):
   sterr idiv with an empty operand: XPST0005 is a permitted static error (no spec comparison)
   idef  idiv/mod on decimals whose quotient has more than 28 digits (no spec comparison)
   fhyp  xs:float-typed operation inside the hypotheses of float_ops_eq_spec_up_to_rounding: impl must equal specI
+  safe  round / round-half-to-even inside `roundSafe` (integer/decimal coefficient < 10^2000, precision ≤ scale):
+        F06p is impossible (theorem roundSafe_excludes_F06p), impl must equal spec, no tag accepted
   ovf   an integer operand beyond the xs:double range meets a float (FOAR0002 or ±INF both conform: no spec comparison)
 The model is run with the concrete round-to-nearest-even `FOArith.ieee` for `R`.
 -/
 import EPV.Proto
 import EPV.Spec.FOArith
 import EPV.Model.Arith
+import EPV.Model.ArithRoundSafe
 open EPV.Proto EPV.FOArith EPV.Arith
 
 def parseRat (s : String) : Option Rat :=
@@ -178,7 +181,7 @@ def answer (line : String) : String :=
           let s0 := specUn R op (absNum a)
           let s := match op with | .neg | .pos | .abs => ctxDec s0 | _ => s0
           let si := if isFlt a then showX (clampX (specUn (implR R) op (absNum a))) else "_"
-          let fl := flagsStr [(trigF06c_un op a, "F06c"), (trigF06p op a, "F06p"), (isFlt a, "fhyp")]
+          let fl := flagsStr [(trigF06c_un op a, "F06c"), (trigF06p op a, "F06p"), (isFlt a, "fhyp"), (roundSafeOp op a, "safe")]
           s!"model={showX (absNum m)} spec={showX s} specI={si} flags={fl} mraw={showX (absNum m)}"
 
 def main : IO Unit := mainLoop answer
